@@ -46,7 +46,8 @@ def run(check, scenarios, props, depth=None, devbound=None, seconds=None, tag="n
     nsh = min(NCPU, max(1, len(scenarios)))
     cmds = []
     for i in range(nsh):
-        c = [exe, "scenarios=" + path, "shard=%d" % i, "nshards=%d" % nsh, "props=" + ",".join(props)]
+        c = [exe, "scenarios=" + path, "shard=%d" % i, "nshards=%d" % nsh, "props=" + ",".join(props),
+             "known=" + os.path.join(vbuild.VERIF, "known_findings.json")]
         if depth is not None:
             c.append("depth=%d" % depth)
         if devbound is not None:
